@@ -103,6 +103,28 @@ impl<T: Config> InputQueue<T> {
         self.last_requested_frame = NULL_FRAME;
     }
 
+    /// Resets the prediction after the game state has been rolled back to `loaded_frame`, unless the
+    /// running prediction is still needed.
+    ///
+    /// Frames before `loaded_frame` are not simulated again. If this queue is predicting and the
+    /// newest input it holds is older than `loaded_frame - 1`, some of those frames were simulated
+    /// with the running prediction and their real inputs have not arrived yet: they still have to be
+    /// compared with what was really handed out for them. Re-creating the prediction now would
+    /// compare them with a prediction derived from whatever has arrived in the meantime instead. For
+    /// the bundled predictors both are the same value; a user-supplied [`InputPredictor`] may map the
+    /// newer input (or an input where there was none before) to something else, and the frames
+    /// simulated with the old prediction would never be corrected.
+    ///
+    /// [`InputPredictor`]: crate::InputPredictor
+    pub(crate) fn reset_prediction_after_load(&mut self, loaded_frame: Frame) {
+        let unverified_frames_before_load = self.prediction.frame != NULL_FRAME
+            && self.first_incorrect_frame == NULL_FRAME
+            && self.last_added_frame < loaded_frame - 1;
+        if !unverified_frames_before_load {
+            self.reset_prediction();
+        }
+    }
+
     /// Returns a `PlayerInput`, but only if the input for the requested frame is confirmed.
     /// In contrast to `input()`, this will not return a prediction if there is no confirmed input for the frame, but panic instead.
     pub(crate) fn confirmed_input(&self, requested_frame: Frame) -> PlayerInput<T::Input> {
